@@ -8,9 +8,10 @@
 (* "Bytes after the terminator are the next command" is observed through   *)
 (* nlf: the command reader answers once per LF-terminated line.            *)
 (* orig: when the stream s was produced by the real qmail-remote from a    *)
-(* message, that message (else <<-1>>): the round trip must be identity.   *)
+(* message, that message (else <<-1>>): the round trip must give back the  *)
+(* same lines.                                                             *)
 (***************************************************************************)
-EXTENDS SmtpData, Json, IOUtils, TLC
+EXTENDS SmtpData, Json, IOUtils, TLC, SequencesExt
 Recs  == ndJsonDeserialize(IOEnv.RECORDS)
 Chunk == atoi(IOEnv.CHUNK)
 N     == Len(Recs)
@@ -22,11 +23,16 @@ Next == \/ g = 0 /\ g' \in 1..G /\ k' = 0
         \/ g > 0 /\ k = 0 /\ k' \in {c \in 1..NCh : c % G = g - 1} /\ g' = g
 Spec == Init /\ [][Next]_<<g, k>>
 
+\* the lines of a queued message as its sender sees them: a line ends at LF, at CR LF, or at a CR not followed by LF (the
+\* client sends each as CR LF, so each comes back as LF)
+Lines(m) == LET keep == {i \in 1..Len(m) : ~(m[i] = 13 /\ i < Len(m) /\ m[i + 1] = 10)}
+                idx == SetToSortSeq(keep, LAMBDA a, b : a < b)
+            IN [j \in 1..Len(idx) |-> IF m[idx[j]] = 13 THEN 10 ELSE m[idx[j]]]
 Verdict(r) ==
   LET v == DecVerdict(r.s, r.res, r.msg, -1, r.q = 1)
       ref == RefRecv(r.s)
   IN IF v # "" THEN v
-     ELSE IF r.orig # <<-1>> /\ r.msg # r.orig THEN "RoundTripChangedMessage"     \* decode(encode(m)) = m
+     ELSE IF r.orig # <<-1>> /\ r.msg # Lines(r.orig) THEN "RoundTripChangedMessage"     \* decode(encode(m)) = m, line by line
      ELSE IF ref.st = "end" /\ r.nlf # -1 /\ r.nlf # NumLF(SubSeq(r.s, ref.used + 1, Len(r.s))) THEN "BytesAfterTerminatorNotCommands"
      ELSE ""
 CheckChunk(c) ==
